@@ -87,6 +87,11 @@ class C08(runner.Prop):
             same_spec(ctx, 'transform/none', spec.transform(), spec)
             same_spec(ctx, 'transform/identity', spec.transform(lambda x: x, lambda x: x), spec)
             same_spec(ctx, 'transform/identity_node_only', optree.treespec_transform(spec, lambda x: x), spec)
+            # the two nullary constructors carry the flag they were given
+            for tag, made, ref in (('treespec_leaf', optree.treespec_leaf(none_is_leaf=nil), optree.tree_structure(U.Leaf(0), none_is_leaf=nil)),
+                                   ('treespec_none', optree.treespec_none(none_is_leaf=nil), optree.tree_structure(None, none_is_leaf=nil))):
+                if same_spec(ctx, f'ctor/{tag}', made, ref) and (made.none_is_leaf != nil or repr(made) != repr(ref)):
+                    ctx.fail(f'ctor/{tag}/flag', f'{made!r} vs {ref!r}')
             # a treespec that (through its metadata) contains itself renders the inner occurrence as '...', every time
             holder = _Holder()
             try:
@@ -259,6 +264,16 @@ class C08(runner.Prop):
                 routes['treespec_namedtuple'] = lambda: optree.treespec_namedtuple(coll, **okw)
             elif kind == 'ss':
                 routes['treespec_structseq'] = lambda: optree.treespec_structseq(coll, **okw)
+        # without a namespace argument the constructors of the built-in kinds take the namespace their children recorded
+        if kind in ('tuple', 'list', 'deque') and n > 0:
+            ctor = {'tuple': optree.treespec_tuple, 'list': optree.treespec_list,
+                    'deque': lambda ks, **k: optree.treespec_deque(ks, maxlen=node.meta, **k)}[kind]
+            try:
+                bare = ctor(list(kids), none_is_leaf=nil)
+                if same_spec(ctx, f'rebuild/{kind}_without_namespace', bare, s) and bare.namespace != kids[0].namespace:
+                    ctx.fail(f'rebuild/{kind}_without_namespace/namespace', f'{bare.namespace!r} vs children {kids[0].namespace!r}')
+            except Exception as e:  # noqa: BLE001
+                ctx.fail(f'rebuild/{kind}_without_namespace_raises', f'{type(e).__name__}: {e} (spec {s})')
         for name, fn in routes.items():
             try:
                 got = fn()
